@@ -389,6 +389,79 @@ def job_check(kind, case, rec):
         rec.close("job.y=sum-of-boundary-forces", float(np.abs(np.asarray(job.y[-1]) - ref).max()) / max(float(np.abs(ref).max()), 1e-12), 1e-8)
 
 
+def ustrain_strategy(kind, tier):
+    return st.fixed_dictionaries({"n": st.lists(st.integers(2, 3), min_size=3, max_size=3), "steps": st.lists(st_ramp(), min_size=1, max_size=3),
+                                  "mu": fl(0.5, 2), "lmbda": fl(0.5, 3), "c": fl(0.0, 2.0), "fail": st.one_of(st.none(), st.none(), st.integers(0, 8))})
+
+
+def ustrain_check(kind, case, rec):
+    """a user-defined small-strain law behind MaterialStrain (documented interface fun(de, en, sn, zn, **kw) -> dsde, s, z) whose state
+    variable is returned as a NEW array: z = zn + |de| (the length of the strain path). After every converged substep the body holds
+    the path length over the converged strains, the converged strain and the converged stress; a failed substep commits nothing."""
+    fem = import_felupe()
+    from felupe.math import cdya, dya, identity, trace
+
+    mu, lm, c = case["mu"], case["lmbda"], case["c"]
+
+    def law(de, en, sn, zn, **kwargs):
+        I = identity(de)
+        path = zn[0] + np.sqrt(np.einsum("ij...,ij...->...", de, de))[None]  # a fresh array, zn is left alone
+        s_new = sn + 2 * mu * de + lm * trace(de) * I
+        dsde = 2 * mu * cdya(I, I) + lm * dya(I, I)
+        return dsde, s_new, [path]
+
+    mesh = fem.Cube(b=(1.0, 0.8, 0.6), n=tuple(case["n"]))
+    region = fem.RegionHexahedron(mesh)
+    fc = fem.FieldContainer([fem.Field(region, dim=3)])
+    um = fem.MaterialStrain(material=law, dim=3, statevars=((1,),))
+    body = fem.SolidBody(um, fc)
+    bounds, lc = fem.dof.uniaxial(fc, clamped=True, move=0.0)
+    steps, flat, k = [], [], 0
+    for ramp in case["steps"]:
+        vals = [0.1 * v for v in ramp]
+        for j in range(len(vals)):
+            if case["fail"] is not None and k == case["fail"]:
+                vals[j] = float("nan")
+            k += 1
+        flat += vals
+        steps.append(fem.Step(items=[body], ramp={bounds["move"]: np.array(vals)}, boundaries=bounds))
+    eps_seen, state_seen = [], []
+
+    def cb(stepnumber, substepnumber, substep, **kw):
+        H = np.asarray(substep.x.extract(grad=True, sym=False, add_identity=False)[0])
+        eps_seen.append(0.5 * (H + np.swapaxes(H, 0, 1)))
+        state_seen.append(np.array(body.results.statevars, float))
+
+    raised = False
+    try:
+        fem.Job(steps=steps, callback=cb).evaluate(tol=1e-9)
+    except ValueError:
+        raised = True
+    nok = next((i for i, v in enumerate(flat) if v != v), len(flat))
+    rec.require("raises-iff-failure", raised == (nok < len(flat)))
+    if not rec.require("one-callback-per-converged-substep", len(eps_seen) == nok, [len(eps_seen), nok]):
+        return
+    rec.nontrivial = nok >= 2 and max(abs(v) for v in flat[:nok]) > 0
+    path = np.zeros(eps_seen[0].shape[2:]) if eps_seen else None
+    prev = np.zeros_like(eps_seen[0]) if eps_seen else None
+    worst_p, worst_e, worst_s = 0.0, 0.0, 0.0
+    for e_, sv in zip(eps_seen, state_seen):
+        path = path + np.sqrt(((e_ - prev) ** 2).sum((0, 1)))
+        prev = e_
+        sig = 2 * mu * e_ + lm * np.trace(e_) * np.eye(3).reshape(3, 3, 1, 1)
+        worst_p = max(worst_p, float(np.abs(sv[0] - path).max()))
+        worst_e = max(worst_e, float(np.abs(sv[1:10].reshape(e_.shape) - e_).max()))
+        worst_s = max(worst_s, float(np.abs(sv[10:19].reshape(e_.shape) - sig).max()))
+    if eps_seen:
+        sc = max(float(path.max()), 1e-6)
+        rec.close("stored-user-state=strain-path-length-over-the-converged-substeps", worst_p / sc, 1e-7, {"substeps": nok})
+        rec.close("stored-strain=converged-strain", worst_e / sc, 1e-9)
+        rec.close("stored-stress=stress-of-the-converged-strain", worst_s / (sc * (2 * mu + 3 * lm)), 1e-7)
+        rec.require("state-after-the-job=state-of-the-last-converged-substep", np.array_equal(np.array(body.results.statevars, float), state_seen[-1]))
+    if raised:
+        rec.label("failure-injected")
+
+
 def ramp_strategy(kind, tier):
     return st.fixed_dictionaries({"n": st.lists(st.integers(2, 3), min_size=3, max_size=3), "seed": st.integers(0, 2**16), "mu": fl(0.5, 2),
                                   "ramp": st_ramp(6 if tier == "quick" else 10), "r0": st.sampled_from([0.0, 0.4, 1.3])})
@@ -496,6 +569,7 @@ def ramp_check(kind, case, rec):
 
 FAMILIES = [
     Family("ramped-items", ["pointload", "pointload-axi", "gravity", "formitem"], ramp_check, strategy=ramp_strategy, n={"quick": 6, "thorough": 150}, chunk=3),
+    Family("user-strain-material", ["path-length"], ustrain_check, strategy=ustrain_strategy, n={"quick": 8, "thorough": 200}, chunk=4),
     Family("history", CLASSES, check, strategy=strategy, n={"quick": 8, "thorough": 200}, chunk=4, weight=4),
     Family("job", ["job", "curve"], job_check, strategy=job_strategy, n={"quick": 10, "thorough": 200}, chunk=5, weight=2),
 ]
